@@ -2,7 +2,11 @@
 
 package internal
 
-import "github.com/Yiling-J/theine-go/internal/hasher"
+import (
+	"context"
+
+	"github.com/Yiling-J/theine-go/internal/hasher"
+)
 
 // C18 — equal keys address the same entry; different keys never alias.
 // The real (pre-1.24) hasher is executed through its unsafe casts; xxh3 is an uninterpreted function of the
@@ -81,4 +85,38 @@ func ZZ_C18_Collision() {
 	vfAssert("delete-affects-only-its-key", !hit1b && (hit2b == hit2) && vfImplies(hit2b, v2b == 222))
 	s.Wait()
 	zzAccounted(s, "collision")
+}
+
+// ZZ_C18_CollisionLoading: two different keys with a full hash collision loaded concurrently through the
+// loading cache (and its per-shard duplicate-suppression groups) each receive their own value.
+func ZZ_C18_CollisionLoading() {
+	vfSetHashMode(0)
+	StripedBufferSize = 1
+	s := NewStore[uint64, uint64](&StoreOptions[uint64, uint64]{MaxSize: 10})
+	vfQuiesce()
+	ls := NewLoadingStore(s)
+	ls.Loader(func(ctx context.Context, key uint64) (Loaded[uint64], error) {
+		vfYield()
+		return Loaded[uint64]{Value: key + 1000, Cost: 1}, nil
+	})
+	vfStub("CountMinSketch).Add") // cut: sketch updates under a symbolic hash only fork (C17 covers the sketch)
+	// concrete keys, uninterpreted hash: the collision is an assumption about the hash function
+	k1, k2 := uint64(11), uint64(22)
+	h1, _ := s.index(k1)
+	h2, _ := s.index(k2)
+	vfAssume(h1 == h2)
+	vfSetPreemptions(vfConfig("PRE", 1))
+	var v1, v2 uint64
+	var e1, e2 error
+	done := make(chan int, 2)
+	go func() { v1, e1 = ls.Get(context.Background(), k1); done <- 1 }()
+	go func() { v2, e2 = ls.Get(context.Background(), k2); done <- 1 }()
+	<-done
+	<-done
+	vfSetPreemptions(0)
+	vfReach("both-loaded")
+	vfAssert("colliding-keys-load-their-own-values", e1 == nil && e2 == nil && v1 == k1+1000 && v2 == k2+1000)
+	w1, _ := ls.Get(context.Background(), k1)
+	w2, _ := ls.Get(context.Background(), k2)
+	vfAssert("colliding-keys-cached-under-their-own-key", w1 == k1+1000 && w2 == k2+1000)
 }
